@@ -78,7 +78,10 @@ class GWCSAPIMixin(BaseHighLevelWCS, BaseLowLevelWCS):
             if frame.naxes == 1:
                 result = [result]
 
-            result = tuple(r.to_value(unit) for r, unit in zip(result, frame.unit))
+            # a transform without parameters reports ``uses_quantity`` but may
+            # hand back plain arrays (e.g. after bounding box masking)
+            result = tuple(r.to_value(unit) if isinstance(r, u.Quantity) else r
+                           for r, unit in zip(result, frame.unit))
 
         # If we only have one output axes, we shouldn't return a tuple.
         if frame.naxes == 1 and isinstance(result, tuple):
